@@ -88,6 +88,8 @@ func cmdCheck(args []string) int {
 	timeoutFlag := fs.Int("timeout", 0, "per-obligation timeout override (s)")
 	noEvidence := fs.Bool("no-evidence", false, "do not write the evidence file")
 	verbose := fs.Bool("v", false, "verbose")
+	loadDir := fs.String("load-dir", "", "directory of the module to load packages from (default: the repository)")
+	patterns := fs.String("patterns", "./...", "comma-separated package patterns")
 	noSlice := fs.Bool("no-slice", false, "disable relevance slicing of assumptions")
 	match := fs.String("match", "", "only obligations whose name/case contains this (debugging)")
 	fs.Parse(args)
@@ -106,7 +108,11 @@ func cmdCheck(args []string) int {
 	}
 	currentProp = *prop
 	start := time.Now()
-	p, err := loadProgram(*repo, filepath.Join(*verif, "spec"), filepath.Join(*verif, "contracts"), []string{"./..."}, *repo)
+	ld := *repo
+	if *loadDir != "" {
+		ld = *loadDir
+	}
+	p, err := loadProgram(*repo, filepath.Join(*verif, "spec"), filepath.Join(*verif, "contracts"), strings.Split(*patterns, ","), ld)
 	if err != nil {
 		// the tree does not build: that is not a property verdict
 		fmt.Fprintln(os.Stderr, "govc: cannot load program:", err)
